@@ -4,6 +4,7 @@ import (
 	"encoding/json"
 	"flag"
 	"fmt"
+	"github.com/nsqio/nsq/internal/verif"
 	"os"
 	"path/filepath"
 	"strings"
@@ -53,6 +54,8 @@ func c08Main(args []string) int {
 			c08DeleteRace(c, d)
 		case "ephemeral":
 			c08Ephemeral(c, d)
+		case "ephsub":
+			c08EphemeralSub(c, d)
 		}
 		os.RemoveAll(d)
 	}
@@ -360,5 +363,98 @@ func c08Ephemeral(c *c08Case, dir string) {
 	}
 	if b, err := os.ReadFile(filepath.Join(dir, "nsqd.dat")); err == nil && strings.Contains(string(b), "#ephemeral") {
 		c.failf("ephemeral objects are in the persisted metadata: %s", string(b))
+	}
+}
+
+// c08EphemeralSub: a consumer subscribes while the auto-removal of the ephemeral topic (or channel) it asks for is held
+// half-way through a yield point.  Whatever the daemon does with the request -- refuse it, or serve it from a fresh
+// topic / channel --, a SUB that is answered OK gets what is published afterwards, and the consumer shows in /stats.
+func c08EphemeralSub(c *c08Case, dir string) {
+	points := []string{"topicdelete.afterDelete|et#ephemeral#", "topic.exit.flag|et#ephemeral#", "topic.exit.pumpStopped|et#ephemeral#",
+		"chandelete.afterDelete|et#ephemeral/ec#ephemeral#", "chan.exit.flag|et#ephemeral/ec#ephemeral#", "empty.afterReset|et#ephemeral/ec#ephemeral#"}
+	point := points[int(c.Seed)%len(points)]
+	g := newTGates()
+	verif.SetGate(g.fn)
+	defer verif.SetGate(nil)
+	defer g.releaseAll()
+	nd, err := startNode(dir, func(o *nsqd.Options) { o.MemQueueSize = 3 })
+	if err != nil {
+		c.Incon = err.Error()
+		return
+	}
+	defer nd.stop(20 * time.Second)
+	topic, ch := "et#ephemeral", "ec#ephemeral"
+	cn, err := dial(nd.TCP, "es1")
+	if err != nil {
+		c.Incon = err.Error()
+		return
+	}
+	cn.identify(nil)
+	if err := cn.sub(topic, ch); err != nil {
+		c.Incon = err.Error()
+		cn.close()
+		return
+	}
+	g.arm(point, true)
+	cn.close() // the last consumer leaves: channel, then topic are removed -- up to the armed yield point
+	var parked *tArrival
+	select {
+	case parked = <-g.arrived:
+	case <-time.After(5 * time.Second):
+		c.Incon = "the removal did not reach " + point
+		return
+	}
+	// the new consumer asks for the same topic; half of the cases for the same channel too
+	ch2 := ch
+	if (c.Seed/int64(len(points)))%2 == 1 {
+		ch2 = "other#ephemeral"
+	}
+	c2, err := dial(nd.TCP, "es2")
+	if err != nil {
+		c.Incon = err.Error()
+		return
+	}
+	defer c2.close()
+	c2.identify(map[string]interface{}{"output_buffer_timeout": 25})
+	subErr := make(chan error, 1)
+	go func() { subErr <- c2.sub(topic, ch2) }()
+	// the removal goes on a little later (nsqd retries such a SUB after 100 ms, twice)
+	time.Sleep(time.Duration(30+(c.Seed%5)*40) * time.Millisecond)
+	g.release(parked)
+	var serr error
+	select {
+	case serr = <-subErr:
+	case <-time.After(10 * time.Second):
+		c.failf("a SUB to %s/%s sent while the ephemeral topic was being removed (held at %s) was never answered", topic, ch2, point)
+		return
+	}
+	c.Ops++
+	if serr != nil {
+		return // refused: nothing more is promised
+	}
+	c2.cmd("RDY", "", "5")
+	if _, err := c2.barrier(10 * time.Second); err != nil {
+		c.Incon = "barrier: " + err.Error()
+		return
+	}
+	if st, _, err := nd.post("/pub?topic="+q(topic), []byte("after")); err != nil || st != 200 {
+		c.Incon = "publish failed"
+		return
+	}
+	got := false
+	deadline := time.Now().Add(5 * time.Second)
+	for time.Now().Before(deadline) && !got {
+		f, ok := c2.next(50 * time.Millisecond)
+		if ok && f.Type == 2 && string(f.Body) == "after" {
+			got = true
+			c2.cmd("FIN", f.ID, "")
+		}
+	}
+	if !got {
+		c.failf("a consumer whose SUB to %s/%s was answered OK while the ephemeral topic was being removed (held at %s) never received a message published afterwards", topic, ch2, point)
+		return
+	}
+	if cs, _ := chanStat(nd, topic, ch2); cs == nil || cs.ClientCount < 1 {
+		c.failf("a consumer subscribed (OK) to %s/%s while the ephemeral topic was being removed (held at %s) receives messages but /stats does not show it", topic, ch2, point)
 	}
 }
